@@ -254,8 +254,9 @@ func (a *otherContactsAction) resolveRecipients(run flows.Run, logEvent flows.Ev
 		}
 	}
 
-	// evaluate contact query
-	contactQuery, _ := run.EvaluateTemplateText(a.ContactQuery, flows.ContactQueryEscaping, true, logEvent)
+	// evaluate contact query.. which isn't truncated because cutting a query short changes what it means: it can drop
+	// conditions and can cut the closing quote off an escaped value so that the rest of the value is read as query
+	contactQuery, _ := run.EvaluateTemplateText(a.ContactQuery, flows.ContactQueryEscaping, false, logEvent)
 	contactQuery = strings.TrimSpace(contactQuery)
 
 	return groupRefs, contactRefs, contactQuery, urnList, nil
